@@ -11,6 +11,7 @@ import (
 	"regexp"
 	"sort"
 	"strings"
+	"time"
 )
 
 // ---------------------------------------------------------------- independent walker
@@ -156,6 +157,12 @@ func (e *Env) walkCheck(where string) {
 
 func (e *Env) walkProblems(checkIndex bool) (problems []string) {
 	w := WalkDir(e.collDir())
+	// a background flusher may be in the middle of a write (temporary file, then rename): a
+	// temporary file only counts when it stays
+	for try := 0; try < 10 && e.cfg.Async != nil && onlyTempFiles(w.Others); try++ {
+		time.Sleep(10 * time.Millisecond)
+		w = WalkDir(e.collDir())
+	}
 	bad := func(f string, a ...interface{}) { problems = append(problems, fmt.Sprintf(f, a...)) }
 	if !w.Exists {
 		bad("collection directory %s does not exist", e.collDir())
@@ -289,4 +296,16 @@ func decodeIndexValue(raw json.RawMessage, cls string) (norm, error) {
 		err = json.Unmarshal(raw, &n.s)
 	}
 	return n, err
+}
+
+func onlyTempFiles(names []string) bool {
+	if len(names) == 0 {
+		return false
+	}
+	for _, n := range names {
+		if !(strings.HasPrefix(n, ".") && strings.HasSuffix(n, ".tmp")) {
+			return false
+		}
+	}
+	return true
 }
